@@ -88,11 +88,11 @@ DONE = ['c08_delta_read_uleb128', 'c08_delta_read_block', 'c08_delta_decoder_nex
         'c08_delta_decoder_init', 'c08_delta_read_mini_block', 'c08_delta_strings_decode', 'c08_delta_strings_views_leak',
         # encoder side: ok on /repo afcedfb, each reported a seeded breakage (wrong packed_bytes_needed for widths > 32,
         # flush at > 128 deltas, 4-byte header guard, block size 64)
-        'c11_delta_flush_block_safe', 'c11_delta_encoder_init', 'c11_delta_encode_int32', 'c11_delta_encode_int64']
+        'c11_delta_flush_block_safe', 'c11_delta_flush_block_fit', 'c11_delta_encoder_init', 'c11_delta_encode_int32', 'c11_delta_encode_int64',
+        'c12_delta_flush_block_spec_size']   # live: fails on the recorded known finding KF-C12-delta-wide only
 NOTES = {
-    'c11_delta_flush_block_fit': 'not yet run to completion with the all-loop-contract decomposition (about 25 min)',
-    'c12_delta_flush_block_spec_size': 'KNOWN FINDING candidate (demo /tmp/delta/demo_c12_width.c): expected to FAIL for widths 33..63 not divisible by 8 '
-        '(encoder and decoder use ceil(w/8) whole bytes per value instead of bit packing)',
+    'c12_delta_flush_block_spec_size': 'FINDING (C12, to be recorded as known): fails on exactly the ensures DELTA_FLUSH_SPEC_SIZE (115 other obligations ok): for widths 33..63 not divisible by 8 '
+        'encoder and decoder use ceil(w/8) whole bytes per value instead of bit packing; native demo /tmp/delta/demo_c12_width.c',
 }
 for _j in JOBS:
     _j['wip'] = _j['name'] not in DONE
